@@ -385,6 +385,24 @@ def r5(ctx):
     sessions_ok = not any(o["status"] != "holds" and ("returns-on-every-script" in o["key"] or "outcome-reportable" in o["key"]) for o in ctx.obligations) and \
         any("returns-on-every-script" in o["key"] for o in ctx.obligations)
     C09.panic_audit(ctx, rule="C10.R5", only=re.compile(r"^(net::codec::|<net::codec::|net::handle_connection|net::connect_and_sync)"), sessions_ok=sessions_ok)
+    # the wire types a peer's frame carries into the store actor: a record identifier that decodes although it is too short
+    # panics in the actor at its first accessor - the session and every later call on the node wait forever (shared with C09.R3)
+    sub = type(ctx)(ctx.prop, ctx.tier, ctx.facts, ctx.cfg)
+    C09.r3(sub)
+    n = 0
+    for o in sub.obligations:
+        if "RecordIdentifier" not in o["key"]:
+            continue
+        o = dict(o)
+        o["key"] = o["key"].replace("C09.R3", "C10.R5")
+        o["rule"] = "C10.R5"
+        ctx.obligations.append(o)
+        n += 1
+        if o["status"] != "holds":
+            ctx.violations.append(o)
+    ctx.analysed_bodies |= sub.analysed_bodies
+    if n < 3:
+        raise mir.AnchorMissing("expected the RecordIdentifier obligations of C09.R3 (validating constructor, accessors), found %d" % n)
 
 
 def r6(ctx):
